@@ -128,6 +128,7 @@ type c3Scenario struct {
 	AtLeast    int  // histo --atleast: the screen shows only keys with at least this count (the CSV export shows all)
 	SmallView  bool // table/heatmap with --cols/--num smaller than the data: the screen is cut, the CSV export is not
 	RecordTerm bool // keep every screen line the program writes (intermediate renders), see c13Screens
+	GroupBy2 bool // reduce-ordered: grouped by the second word
 	OneByOne bool // equality only demanded between 1-reader-1-worker variants (not used by the order-insensitive commands)
 }
 
@@ -143,6 +144,7 @@ type c3Variant struct {
 	Salt    uint64
 	Chunk   bool
 	ScanBuf int // override of the scanner's 128 KiB buffer constant (0: unchanged)
+	Roots   bool // every file in a directory of its own, named on the command line as `-R r0 r1 ...`
 }
 
 func (v *c3Variant) String() string {
@@ -159,7 +161,7 @@ func (v *c3Variant) String() string {
 
 func c3GenScenario(t *simrt.Tape) *c3Scenario {
 	sc := &c3Scenario{}
-	sc.Kind = []string{"histo", "histo", "table", "heatmap", "spark", "bars", "reduce", "analyze", "json-key", "spark-trunc"}[t.W(10)]
+	sc.Kind = []string{"histo", "histo", "table", "heatmap", "spark", "bars", "reduce", "analyze", "json-key", "spark-trunc", "reduce-ordered"}[t.W(11)]
 	// corpus
 	p1 := 2 + t.W(5)
 	p2 := 1 + t.W(4)
@@ -178,7 +180,7 @@ func c3GenScenario(t *simrt.Tape) *c3Scenario {
 	n := t.W(61)
 	re := regexp.MustCompile(`^(\S+) (\S+) (\S+)$`)
 	sc.Regex = `^(\S+) (\S+) (\S+)$`
-	if sc.Kind == "reduce" || sc.Kind == "analyze" {
+	if sc.Kind == "reduce" || sc.Kind == "analyze" || sc.Kind == "reduce-ordered" {
 		sc.Regex = `^(\S+) (\S+) (-?\d+)$`
 		re = regexp.MustCompile(sc.Regex)
 	}
@@ -310,6 +312,19 @@ func c3GenScenario(t *simrt.Tape) *c3Scenario {
 			}
 		}
 		sc.HasCSV = true
+	case "reduce-ordered":
+		// accumulators whose value depends on the order of the lines: "any accumulator with one reader and one worker" is a
+		// function of the input and the command line. Every variant keeps one reader, one worker and the order of the lines.
+		sc.Tpls = []c3Tpl{{{Grp: 1}}, {{Grp: 2}}, {{Grp: 3}}}
+		sc.Flags = append(common, "reduce", "-a", "last={1}", "-a", "cat:={.}{2}.", "-a", "n={sumi {.} 1}")
+		switch t.W(3) {
+		case 1:
+			sc.Flags = append(sc.Flags, "-g", "{1}")
+		case 2:
+			sc.Flags = append(sc.Flags, "-g", "{2}")
+			sc.GroupBy2 = true
+		}
+		sc.HasCSV, sc.OneByOne = true, true
 	case "analyze":
 		sc.Tpls = []c3Tpl{{{Grp: 3}}}
 		sc.Flags = append(common, "analyze")
@@ -374,6 +389,21 @@ func c3GenVariant(t *simrt.Tape, sc *c3Scenario, first bool) *c3Variant {
 	v.Salt = uint64(t.F(1<<30))<<1 | 1
 	if first {
 		v.Salt = 0
+	}
+	if sc.OneByOne {
+		// one reader, one worker, the lines in their order: contiguous division, files named in order
+		v.Workers, v.Readers = 1, 1
+		k := len(v.Files)
+		n := len(sc.Lines)
+		v.Files = make([][]int, k)
+		for i := 0; i < n; i++ {
+			f := i * k / (n + 1)
+			v.Files[f] = append(v.Files[f], i)
+		}
+		for i := range v.Order {
+			v.Order[i] = i
+		}
+		v.Roots = !v.Stdin && t.WBool(1, 2)
 	}
 	return v
 }
@@ -463,6 +493,7 @@ type c3Ref struct {
 	Cells                  map[string]map[string]int64 // first key -> second key -> sum (table: col->row; bars: key->subkey)
 	Second                 map[string]bool
 	Red                    map[string][3]int64 // reduce: group -> total, n, mx
+	Ord                    map[string][3]string // reduce-ordered: group -> last, cat, n
 	Nums                   []float64
 	Pairs                  map[string]int64 // json-key: "alpha\x00beta\x00n" -> count
 }
@@ -542,6 +573,25 @@ func c3Reference(sc *c3Scenario) *c3Ref {
 				cur[2] = v
 			}
 			r.Red[g] = cur
+		case "reduce-ordered":
+			g := ""
+			for _, f := range sc.Flags {
+				if f == "-g" {
+					g = l.G[1]
+					if sc.GroupBy2 {
+						g = l.G[2]
+					}
+				}
+			}
+			if r.Ord == nil {
+				r.Ord = map[string][3]string{}
+			}
+			cur := r.Ord[g]
+			cur[0] = l.G[1]
+			cur[1] += l.G[2] + "."
+			n, _ := strconv.Atoi(cur[2])
+			cur[2] = strconv.Itoa(n + 1)
+			r.Ord[g] = cur
 		case "analyze":
 			v, _ := strconv.ParseFloat(l.G[3], 64)
 			r.Nums = append(r.Nums, v)
@@ -601,6 +651,10 @@ func c3RunVariant(rc *RunCtx, sc *c3Scenario, v *c3Variant) *c3Out {
 			continue
 		}
 		names[i] = fmt.Sprintf("f%d.log", i)
+		if v.Roots {
+			os.MkdirAll(fmt.Sprintf("r%d/sub", i), 0o755)
+			names[i] = fmt.Sprintf("r%d/sub/f%d.log", i, i)
+		}
 		data := b.Bytes()
 		if v.Gz[i] {
 			names[i] += ".gz"
@@ -642,7 +696,14 @@ func c3RunVariant(rc *RunCtx, sc *c3Scenario, v *c3Variant) *c3Out {
 		}
 		var files []string
 		for _, o := range v.Order {
+			if v.Roots {
+				files = append(files, fmt.Sprintf("r%d", o))
+				continue
+			}
 			files = append(files, names[o])
+		}
+		if v.Roots {
+			args = append(args, "-R")
 		}
 		for i := 0; i < sc.Missing; i++ {
 			at := (i*7 + len(files)) % (len(files) + 1)
@@ -989,6 +1050,34 @@ func c3CheckReference(rc *RunCtx, sc *c3Scenario, ref *c3Ref, o *c3Out, ctx func
 				}
 				if r[si+1] != strconv.FormatInt(cm[sk], 10) {
 					fail("cell (key %q, sub-key %q) exported as %q, reference %d", r[0], sk, r[si+1], cm[sk])
+					return
+				}
+			}
+		}
+	case "reduce-ordered":
+		ng := 0
+		for _, f := range sc.Flags {
+			if f == "-g" {
+				ng++
+			}
+		}
+		if len(recs)-1 != len(ref.Ord) {
+			fail("%d groups exported, the sequential fold has %d", len(recs)-1, len(ref.Ord))
+			return
+		}
+		for _, r := range recs[1:] {
+			if len(r) != ng+3 {
+				fail("row %q has %d fields, expected %d", r, len(r), ng+3)
+				return
+			}
+			w, ok := ref.Ord[strings.Join(r[:ng], "\x00")]
+			if !ok {
+				fail("group %q is not in the sequential fold", r[:ng])
+				return
+			}
+			for k, name := range []string{"last", "cat", "n"} {
+				if r[ng+k] != w[k] {
+					fail("group %q: accumulator %s exported as %q, folding the lines in input order gives %q", r[:ng], name, clip(r[ng+k], 200), clip(w[k], 200))
 					return
 				}
 			}
